@@ -328,9 +328,10 @@ MANIFEST_ENTRY = {
             "finite_differences (forward, backward, central, forward_central_backward; replicate padding = clamped neighbours; division "
             "by the spacing included) return the slope of a i h + b at all points the scheme supports for every length and h <> 0, "
             "0 resp. a/2 at the padded ends, and 2a for repeated differences of quadratics two points from the ends; the prewitt / sobel "
-            "smoothing reproduces affine data away from its zero padding and loses mass (2/3, 3/4) at it. N-D (D = 2 and D = 3, all six "
+            "smoothing (replicate padding) keeps affine data in the interior and shifts it by +-kb*slope*h at the two ends. N-D (D = 2 and D = 3, all six "
             "modes, all shapes and spacings): the composed operator (smooth the other axes, difference along the axis) gives the partial "
-            "derivatives of affine fields at every point supported along the axis and clear of the zero padding of the other axes; "
+            "derivatives of affine fields at every point supported along the differentiated axis -- every grid point for "
+            "forward_central_backward, prewitt and sobel; "
             "for affine vector fields A p + t the Jacobian, jacobian_det with and without identity, divergence, curl and Lie bracket "
             "assembled from the derivative tensors by the traced formulas equal A, det A, det(A+I), trace A, the rotation vector and "
             "B u - A v at every point of that region; second derivatives of quadratic fields (all cross terms, pure and mixed sorted "
@@ -345,7 +346,6 @@ MANIFEST_ENTRY = {
             "operators det/div/curl/lie{2,3}_field) is compared inside Coq with the implementation on generated inputs.",
     "note": "Partial: key strings are parsed by regular expressions outside the model (validated by the translator's checks and the "
             "exploration); mode='gaussian' is outside the property's mode list and has no exactness theorem (its spacing handling is "
-            "traced and searched); float32 conversion of the spacing is outside the model. Known findings: prewitt / sobel are not exact "
-            "at boundary points of the other axes (zero-padded smoothing; the faithful model proves C12_every_grid_point_refuted and "
-            "the exact-in-the-interior theorems).",
+            "traced and searched); float32 conversion of the spacing is outside the model. No known findings (the zero-padded prewitt / sobel smoothing was "
+            "repaired in /repo 721acda; the oracle keys ...:boundary-not-exact and ...:derivative-axis-boundary stay as regression checks).",
 }
